@@ -509,3 +509,35 @@ theorem pw_neg_unit (hA : ArithOK) {b e N : Int} (hN : 1 < N) (hb : Int.gcd b N 
     rw [hmul, Int.emod_eq_of_lt (by omega) hN]
 
 end Zk.Cl
+
+/-! ### appended: reduced representatives of units -/
+namespace Zk.Cl
+open Zk.IA
+
+/-- a non-negative unit modulo `N > 1` is positive (`0` is not a unit). -/
+theorem pos_of_gcd_eq_one {x N : Int} (hN : 1 < N) (hx : Int.gcd x N = 1) (h0 : 0 ≤ x) : 0 < x := by
+  rcases h0.lt_or_eq with h | h
+  · exact h
+  · subst h
+    rw [Int.gcd_zero_left] at hx
+    omega
+
+/-- the residue of a unit modulo `N > 1` lies in `(0, N)`. -/
+theorem emod_unit_reduced {x N : Int} (hN : 1 < N) (hx : Int.gcd x N = 1) : 0 < x % N ∧ x % N < N :=
+  ⟨pos_of_gcd_eq_one hN (gcd_emod_eq_one hx) (Int.emod_nonneg _ (by omega)),
+    Int.emod_lt_of_pos _ (by omega)⟩
+
+/-- translating by a non-zero multiple of `N` leaves the interval `[0, N)`: at most one representative of a
+residue class is reduced. -/
+theorem shift_not_reduced {x N k : Int} (hk : k ≠ 0) (h0 : 0 ≤ x) (hx : x < N) :
+    x + k * N < 0 ∨ N ≤ x + k * N := by
+  have hN : 0 < N := by omega
+  rcases Int.lt_or_lt_of_ne hk with hneg | hpos
+  · left
+    have : k * N ≤ -1 * N := Int.mul_le_mul_of_nonneg_right (by omega) (by omega)
+    omega
+  · right
+    have : 1 * N ≤ k * N := Int.mul_le_mul_of_nonneg_right (by omega) (by omega)
+    omega
+
+end Zk.Cl
